@@ -614,13 +614,13 @@ def run(chk):
     n_model = n_q = n_mixed_model = boundary_flips = 0
     model_cases = []
     if lib is not None:
-        model_cases = gen_model_cases(chk.rng, lib, 60 if quick else 600)
-    oracle_cases = gen_oracle_cases(chk.rng, 40 if quick else 400)
+        model_cases = gen_model_cases(chk.rng, lib, 35 if quick else 600)
+    oracle_cases = gen_oracle_cases(chk.rng, 25 if quick else 400)
     corpus = json.load(open(os.path.join(common.VERIF, "corpus", "c23.json")))
     for c in corpus:
         if "x" in c:
             oracle_cases.insert(0, (c["pair"], c["source"], c["x"], tuple(c["tol"])))
-    mixed_cases = gen_mixed_cases(chk.rng, 150 if quick else 2000)
+    mixed_cases = gen_mixed_cases(chk.rng, 100 if quick else 2000)
     # the documented wrappers of unit_list (units::mixed)
     WRAPPERS = [("DMS", ["degree", "arcminute", "arcsecond"], "degree"), ("DM", ["degree", "arcminute"], "degree"),
                 ("feet_and_inches", ["foot", "inch"], "foot"), ("pounds_and_ounces", ["pound", "ounce"], "pound")]
@@ -630,7 +630,7 @@ def run(chk):
         v = chk.rng.choice([chk.rng.uniform(0, 400), float(chk.rng.randrange(0, 400)), chk.rng.randrange(1, 10 ** 5) / 3600.0,
                             -chk.rng.uniform(0, 90), chk.rng.randrange(1, 1000) / 12.0])
         wrapper_cases.append((fn, us, v, vu))
-    dt_cases = gen_datetime_oracle_cases(chk.rng, 80 if quick else 1500)
+    dt_cases = gen_datetime_oracle_cases(chk.rng, 60 if quick else 1500)
     for c in corpus:
         if c.get("kind") in ("Q", "D"):
             dt_cases.insert(0, (c["pair"], c["source"], c["kind"], c["expected"], c["tol"]))
